@@ -53,6 +53,18 @@ Definition mscale (v : mval) (k : Z) : outcome mval :=
     | _ => Ok (MF (f64_mul_pow2 (num_to_f64 (as_num v)) k))
     end.
 
+(* utils.scale_raw(val, shift) on one element: val * 2**shift, with Python integers when the factor
+   or the scaled value would not fit in 63 bits (the decision is array-wide in the code; an array
+   whose elements decide differently is not modelled: arr_of rejects mixed kinds) *)
+Definition mscale_raw (v : mval) (k : Z) : outcome mval :=
+  if 0 <? k then
+    match v with
+    | MI z | MU z => if (63 <=? k) || (2^63 <=? Z.abs z * 2^k) then Ok (MO (NI (z * 2^k)))
+                     else Ok (match v with MU _ => MU (z * 2^k) | _ => MI (z * 2^k) end)
+    | _ => mscale v k
+    end
+  else mscale v k.
+
 (* functions._raw_cast: Python integers when the result needs 64 bits or more, or when
    operands of different dtypes would be promoted to float64 beyond 53 bits *)
 Definition raw_cast (dx dy : sdt) (n_bits : Z) : bool :=
